@@ -52,15 +52,19 @@ theorem prefix_sibling_distinct {pkg T m sfx : Str} {p : Bool} (hm : '.' ∉ m) 
 example : linkName "p".toList "T".toList false "Get".toList ≠ linkName "p".toList "T".toList false "GetX".toList :=
   prefix_sibling_distinct (by decide) (by decide) (by decide)
 
+/-- a path without characters the linker escapes is its own symbol prefix (`x/pa`, `github.com/a/b`; NOT `y.v2`) -/
+theorem symPrefix_plain_example : symPrefix "github.com/tencent/goom/x/pa".toList = "github.com/tencent/goom/x/pa".toList ∧
+    symPrefix "gopkg.in/yaml.v2".toList = "gopkg.in/yaml%2ev2".toList := by decide
+
 /-- `Struct(inst).ExportMethod(m)` builds exactly the linker's name (typeName + bracket rule + objName), provided the
     type name contains no `*` (true for every identifier; NOT for a value instance of `G[*X]`, see level note) -/
 theorem exportMethod_name_correct (t : Ty) (m : Str) (h : '*' ∉ t.name) :
-    exportMethodName t m = linkName t.pkg t.name t.ptr m := by
+    exportMethodName t m = linkName (symPrefix t.pkg) t.name t.ptr m := by
   simp [exportMethodName, linkName, bracket_typeName t.ptr h]
 
 /-- `Pkg(pkg).ExportStruct("T" | "*T").Method(m)` builds exactly the linker's name (ExportStruct bracket rule) -/
 theorem exportStruct_name_correct (pkg T m : Str) (p : Bool) (h : '*' ∉ T) :
-    exportStructName pkg (typeName T p) m = linkName pkg T p m := by
+    exportStructName pkg (typeName T p) m = linkName (symPrefix pkg) T p m := by
   simp [exportStructName, linkName, bracket_typeName p h]
 
 /-! ## 2. lookup -/
@@ -205,11 +209,11 @@ theorem byname_mock_exact_partial (syms : List Str) (entries : List Entry) (e e'
     (hg : e.shape = []) (hg' : e'.shape = []) (hstar : '*' ∉ e.name) (hmem : e.callSym ∈ syms)
     (hT : '.' ∉ e.name) (hT' : '.' ∉ e'.name) (hm : '.' ∉ e.m) (hm' : '.' ∉ e'.m)
     (hp : e.name.head? ≠ some '(') (hp' : e'.name.head? ≠ some '(')
-    (hdiff : (e'.pkg, e'.name, e'.ptr, e'.m) ≠ (e.pkg, e.name, e.ptr, e.m)) :
+    (hdiff : (symPrefix e'.pkg, e'.name, e'.ptr, e'.m) ≠ (symPrefix e.pkg, e.name, e.ptr, e.m)) :
     let s := (run syms entries BState.init 0 [st]).1
     behavOf syms s.patched e = some 0 ∧ behavOf syms s.patched e' = none := by
-  have hcs : e.callSym = linkName e.pkg e.name e.ptr e.m := by simp [Entry.callSym, hg]
-  have hcs' : e'.callSym = linkName e'.pkg e'.name e'.ptr e'.m := by simp [Entry.callSym, hg']
+  have hcs : e.callSym = linkName (symPrefix e.pkg) e.name e.ptr e.m := by simp [Entry.callSym, hg]
+  have hcs' : e'.callSym = linkName (symPrefix e'.pkg) e'.name e'.ptr e'.m := by simp [Entry.callSym, hg']
   have hn : stepName entries st = some e.callSym := by
     rcases hst with h | h <;> subst h
     · simp [stepName, hcs, exportStruct_name_correct _ _ _ _ hstar]
